@@ -392,6 +392,9 @@ Qed.
 Definition key_of (fx : fixes) (H : string -> string) (s : step) : option string :=
   cache_key fx H (st_ho s) (st_vo s) (st_inst s) (st_req s).
 
+Lemma same_key_intro fx H a b k : key_of fx H a = Some k -> key_of fx H b = Some k -> same_key fx H a b = true.
+Proof. unfold key_of, same_key, step_key. intros -> ->. apply String.eqb_refl. Qed.
+
 Definition fresh_of (w : world) (s : step) : outcome := fst (exec_fresh w (st_inst s) (st_req s)).
 
 (** "a result is served from the cache only for a request for which a fresh
@@ -584,12 +587,14 @@ Definition intro_ho : list string := ["Accept"; "Content-Type"].
 (** C11-F2: a token cached through the prototype (no scope requirement) is
     accepted by the rule-level instance that requires the scope "admin" *)
 Theorem F2_refuted :
-  exists w a b, g_F2 [a; b] = true /\ step_orders_valid a /\ step_orders_valid b /\
+  exists w a b, (forall H, g_F2 fx_none H [a; b] = true) /\ step_orders_valid a /\ step_orders_valid b /\
     forall H, map sr_out (run_cached fx_none H w [] [a; b]) <> map fst (run_fresh w [a; b]).
 Proof.
   exists w_world, (mk_step (w_intro []) (q_plain "t.alice.r") intro_ho []),
          (mk_step (w_intro ["admin"]) (q_plain "t.alice.r") intro_ho []).
   splits; try reflexivity.
+  - intro H. unfold g_F2, g_F10, keyed. cbn [exists_pair existsb].
+    erewrite same_key_intro by reflexivity. reflexivity.
   - split; simpl; [apply Permutation_refl | constructor].
   - split; simpl; [apply Permutation_refl | constructor].
   - intro H. eapply not_transparent_steps; try reflexivity. discriminate.
@@ -607,12 +612,14 @@ Definition q_sub (id : string) (headers outputs : alist) : reqdata :=
 
 (** C11-F3: rule-level expressions are not evaluated on a hit *)
 Theorem F3_refuted :
-  exists w a b, g_F3 [a; b] = true /\ step_orders_valid a /\ step_orders_valid b /\
+  exists w a b, (forall H, g_F3 fx_none H [a; b] = true) /\ step_orders_valid a /\ step_orders_valid b /\
     forall H, map sr_out (run_cached fx_none H w [] [a; b]) <> map fst (run_fresh w [a; b]).
 Proof.
   exists w_world, (mk_step (w_remote []) (q_sub "alice" [] []) [] []),
          (mk_step (w_remote [EFalse]) (q_sub "alice" [] []) [] []).
   splits; try reflexivity.
+  - intro H. unfold g_F3, g_F6, g_F7, keyed. cbn [exists_pair existsb].
+    erewrite same_key_intro by reflexivity. reflexivity.
   - split; simpl; constructor.
   - split; simpl; constructor.
   - intro H. eapply not_transparent_steps; try reflexivity. discriminate.
@@ -653,12 +660,14 @@ Definition w_ctx_fwd : inst :=
 
 (** C11-F6: the value of a forwarded header is sent to the remote system but is not in the key *)
 Theorem F6_refuted :
-  exists w a b, g_F6 [a; b] = true /\ step_orders_valid a /\ step_orders_valid b /\
+  exists w a b, (forall H, g_F6 fx_none H [a; b] = true) /\ step_orders_valid a /\ step_orders_valid b /\
     forall H, map sr_out (run_cached fx_none H w [] [a; b]) <> map fst (run_fresh w [a; b]).
 Proof.
   exists w_world, (mk_step w_ctx_fwd (q_sub "alice" [("X-F1", "one")] []) [] []),
          (mk_step w_ctx_fwd (q_sub "alice" [("X-F1", "two")] []) [] []).
   splits; try reflexivity.
+  - intro H. unfold g_F3, g_F6, g_F7, keyed. cbn [exists_pair existsb].
+    erewrite same_key_intro by reflexivity. reflexivity.
   - split; simpl; constructor.
   - split; simpl; constructor.
   - intro H. eapply not_transparent_steps; try reflexivity. discriminate.
@@ -672,12 +681,14 @@ Definition w_ctx_outputs : inst :=
 
 (** C11-F7: `.Outputs` in the endpoint URL is not in the key *)
 Theorem F7_refuted :
-  exists w a b, g_F7 [a; b] = true /\ step_orders_valid a /\ step_orders_valid b /\
+  exists w a b, (forall H, g_F7 fx_none H [a; b] = true) /\ step_orders_valid a /\ step_orders_valid b /\
     forall H, map sr_out (run_cached fx_none H w [] [a; b]) <> map fst (run_fresh w [a; b]).
 Proof.
   exists w_world, (mk_step w_ctx_outputs (q_sub "alice" [] [("foo", "A")]) [] []),
          (mk_step w_ctx_outputs (q_sub "alice" [] [("foo", "B")]) [] []).
   splits; try reflexivity.
+  - intro H. unfold g_F3, g_F6, g_F7, keyed. cbn [exists_pair existsb].
+    erewrite same_key_intro by reflexivity. reflexivity.
   - split; simpl; constructor.
   - split; simpl; constructor.
   - intro H. eapply not_transparent_steps; try reflexivity. discriminate.
@@ -693,12 +704,14 @@ Definition w_gen (session : bool) : inst :=
 (** C11-F10: a session the identity endpoint reports as not active, cached through a generic authenticator
     without session_lifespan, is accepted by the one on the same endpoint that asserts the lifespan *)
 Theorem F10_refuted :
-  exists w a b, g_F10 [a; b] = true /\ step_orders_valid a /\ step_orders_valid b /\
+  exists w a b, (forall H, g_F10 fx_now H [a; b] = true) /\ step_orders_valid a /\ step_orders_valid b /\
     forall H, map sr_out (run_cached fx_now H w [] [a; b]) <> map fst (run_fresh w [a; b]).
 Proof.
   exists w_world, (mk_step (w_gen false) (q_plain "s.inactive") ["X-Cred"] []),
          (mk_step (w_gen true) (q_plain "s.inactive") ["X-Cred"] []).
   splits; try reflexivity.
+  - intro H. unfold g_F2, g_F10, keyed. cbn [exists_pair existsb].
+    erewrite same_key_intro by reflexivity. reflexivity.
   - split; simpl; [apply Permutation_refl | constructor].
   - split; simpl; [apply Permutation_refl | constructor].
   - intro H. eapply not_transparent_steps; try reflexivity. discriminate.
